@@ -525,6 +525,14 @@ func stripOAIGen(opts *FlattenOpts) (bool, error) {
 			continue
 		}
 
+		if isReferredFromWithin(r) {
+			// a definition which refers to itself cannot be merged into one of its referers:
+			// keep it, with its OAIGen name
+			debugLog("skip recursive OAIGen definition: %s", r.path)
+
+			continue
+		}
+
 		hasReplacedWithComplex, err := stripOAIGenForRef(opts, k, r)
 		if err != nil {
 			return replacedWithComplex, err
@@ -537,6 +545,17 @@ func stripOAIGen(opts *FlattenOpts) (bool, error) {
 	opts.Spec.reload() // re-analyze
 
 	return replacedWithComplex, nil
+}
+
+// isReferredFromWithin tells whether one of the parents of a new definition lies inside this very definition
+func isReferredFromWithin(r *newRef) bool {
+	for _, parent := range r.parents {
+		if strings.HasPrefix(parent, r.path+"/") {
+			return true
+		}
+	}
+
+	return false
 }
 
 // updateRefParents updates all parents of an updated $ref
